@@ -637,7 +637,8 @@ fn build_default_for_struct(
         .as_ref()
         .and_then(|a| a.value(&parse_quote!(Self)));
     let value = if let Some(value) = value {
-        value
+        // The value is the whole function body: keep e.g. `{ a } + b` an expression.
+        quote!((#value))
     } else {
         let ctor_args = build_default_ctor_args(&item.fields, fields, use_bounds, &mut wcb)?;
         quote!(#this_ty_ident #ctor_args)
@@ -646,6 +647,8 @@ fn build_default_for_struct(
     Ok(quote! {
         #[automatically_derived]
         impl #impl_g #trait_ for #this_ty #wheres {
+            #[allow(clippy::double_parens)]
+            #[allow(unused_parens)]
             fn default() -> Self {
                 #value
             }
@@ -668,7 +671,8 @@ fn build_default_for_enum(
     let mut wcb = WhereClauseBuilder::new(&item.generics);
     let mut use_bounds = e.push_bounds_to_with(hattrs, kind, &mut wcb);
     let value = if let Some(value) = hattrs.default_value(&parse_quote!(Self)) {
-        value
+        // The value is the whole function body: keep e.g. `{ a } + b` an expression.
+        quote!((#value))
     } else {
         let vs: Vec<_> = variants
             .iter()
@@ -713,6 +717,8 @@ fn build_default_for_enum(
     Ok(quote! {
         #[automatically_derived]
         impl #impl_g #trait_ for #this_ty #wheres {
+            #[allow(clippy::double_parens)]
+            #[allow(unused_parens)]
             fn default() -> Self {
                 #value
             }
